@@ -100,6 +100,26 @@ def f_html_escape(it, s, quote=None):
     return SStr(r)
 
 
+@function(html.unescape)
+def f_html_unescape(it, s):
+    """html.unescape: uninterpreted, with the one true fact that text without '&' contains no character reference and is
+    returned unchanged.  (Nothing is claimed about text with '&': it may or may not change.)"""
+    s = it.resolve(s)
+    if not isinstance(s, SStr):
+        it.raise_(TypeError, "html.unescape of non-str")
+    c = s.concrete()
+    if c is not None:
+        return lift(html.unescape(c))
+    r = uf("html_unescape", _S, _S)(s.t)
+    it.ex.assume(z3.Implies(z3.Not(z3.Contains(s.t, z3.StringVal("&"))), r == s.t))
+    it.ex.note("lib", "html.unescape (uninterpreted; identity on text without '&')")
+    it.ex.note("assumed", "html.unescape(s) == s for every s that contains no '&'")
+    return SStr(r)
+
+
+_lib.UF_ORACLES.setdefault("html_unescape", lambda s: html.unescape(s))
+
+
 @function(textwrap.dedent)
 def f_dedent(it, s):
     s = it.resolve(s)
